@@ -20,7 +20,23 @@ META = {
             "every Unicode scalar value as character and inside strings (exhaustive in the thorough tier), "
             "write/parse_text/write, Vm::eval_text of (quote <written>), Vm::eval of (quote d), display and write of "
             "arbitrary data; the implementation is compared with the round-trip specification directly.",
-    "note": "Closed theorems: T10.1 write_read_write (+ read_result, readable_of_fragment), T10.2 heap_roundtrip, "
+    "note": "T10.2 ALSO ON THE CONCRETE HEAP (Vm/ConcreteHeap.lean: cells + 2-bit map + real free list + growth + "
+            "symbol table; the heap the machine-level theorems of C03/C13/C18/C12 run on): put_then_read_cell_concrete "
+            "(Heap::put of any non-pointer value returns a pointer to an allocated cell holding exactly that value, "
+            "payload included - free-list cell, grown cell or the interned cell of a symbol - and every allocated cell "
+            "keeps its content), heap_roundtrip_concrete (putDatum = put_cell for every datum built from atoms - "
+            "booleans, characters, numbers, strings, symbols, nil, void, undefined - and pairs, i.e. proper/dotted "
+            "lists nested arbitrarily: the returned address reads back as the datum, data stored earlier still reads "
+            "the same, WFHeap is kept) and heap_read_unique_concrete (the read-back is a function: it reads as nothing "
+            "else). get_as_cell is stated as a structural relation Rep (no fuel). A concrete cell does NOT erase scalar "
+            "payloads (opaque tag, first character = kind), so the round trip is exact, not up to erasure; the coding "
+            "of a number payload as tag text is a parameter NumCode with a left inverse (inhabited: unaryNumCode). "
+            "Hypotheses: WFHeap of the start heap, Small (2^62 cells) of the final heap. NOT covered on the concrete "
+            "heap: vectors (CCell.vector stores the Rc payload by value, ConcreteHeap.lean decision 3) - for vectors "
+            "T10.2 remains the abstract-store theorem heap_roundtrip; the concrete putDatum/Rep are not run against "
+            "the Rust heap by a stream of their own (the concrete heap is tied to the code by C03's "
+            "concrete-heap-step stream). "
+            "Closed theorems: T10.1 write_read_write (+ read_result, readable_of_fragment), T10.2 heap_roundtrip, "
             "heap_roundtrip_unboxed, eval_quote_id, text_heap_result_text, source_text_trip (the text (quote <written>) "
             "reads as the quote form around a datum that evaluates to itself and is written as the same text), and the "
             "atom lemmas. write_read_write_fragment_partial is the same statement under a decidable hypothesis (symbols "
@@ -49,7 +65,8 @@ THEOREMS = ["Marwood.Proofs.C10." + t for t in [
     "heap_roundtrip", "heap_roundtrip_unboxed", "eval_quote_id", "text_heap_result_text", "source_text_trip",
     "string_escape_inverse", "string_token_self_delimiting", "char_spelling_inverse",
     "char_token_self_delimiting", "exact_number_token", "plain_identifier_token", "number_initial_symbol_token",
-    "prefix_symbol_not_readable", "toy_floatText", "toy_floatLex"]]
+    "prefix_symbol_not_readable", "toy_floatText", "toy_floatLex",
+    "put_then_read_cell_concrete", "heap_roundtrip_concrete", "heap_read_unique_concrete"]]
 
 
 def nontrivial(req, impl):
